@@ -169,6 +169,61 @@ def big_set_member(ex, container, x, st):
     return f(x.z)
 
 
+# ---------------------------------------------------------------------------------------------- JSON objects (json_conversion.py)
+JSON_ASSUMED = ("JSON objects are finite immutable records with the six keys of node_to_dict, each of the type node_to_dict gives it (str, hex str, str, int, int, list of such objects); "
+                "a dict display with exactly these keys allocates such a record; bytes.hex / bytes.fromhex are inverse on the image of hex")
+
+
+def json_field(ex, j, key):
+    kind = JSON_FIELDS[key]
+    if kind == "str":
+        return VStr(uf(ex, "J_" + key, I, S)(j.z))
+    if kind == "int":
+        return VInt(uf(ex, "J_" + key, I, I)(j.z))
+    arr = uf(ex, "J_children", I, z3.ArraySort(I, I))(j.z)
+    n = uf(ex, "J_nchildren", I, I)(j.z)
+    return VList(arr, n, "json")
+
+
+def json_get(ex, j, key, st):
+    ex.assumed.add(JSON_ASSUMED)
+    if key not in JSON_FIELDS:
+        raise Unsupported(f"JSON key {key!r}")
+    v = json_field(ex, j, key)
+    if isinstance(v, VList) and not getattr(st, "in_binder", 0):
+        st.fact(v.n >= 0)
+        # JSON values are finite: every entry of d["children"] is strictly shallower than d
+        dep = uf(ex, "JDEPTH", I, I)
+        k = fresh("k", I)
+        st.fact(dep(j.z) >= 0)
+        st.assume(z3.ForAll([k], z3.Implies(z3.And(0 <= k, k < v.n), z3.And(dep(v.arr[k]) >= 0, dep(v.arr[k]) < dep(j.z)))))
+    return v
+
+
+def json_make(ex, items, st):
+    """{"type": .., "value": .., ...}: a fresh record whose fields are the given values."""
+    ex.assumed.add(JSON_ASSUMED)
+    if set(items) != set(JSON_FIELDS):
+        raise Unsupported(f"dict display with keys {sorted(items)} (only the node_to_dict shape is modelled)")
+    j = VJson(fresh("json", I))
+    for key, v in items.items():
+        f = json_field(ex, j, key)
+        if isinstance(f, VList):
+            if not isinstance(v, VList) or v.ek not in ("json", None):
+                raise Unsupported("JSON children must be a list of JSON objects")
+            if v.ek is None:
+                st.fact(f.n == 0)
+            else:
+                k = fresh("k", I)
+                st.fact(f.n == v.n)
+                st.assume(z3.ForAll([k], z3.Implies(z3.And(0 <= k, k < v.n), f.arr[k] == v.arr[k])))
+        else:
+            if type(f) is not type(v):
+                raise Unsupported(f"JSON field {key}: {v}")
+            st.fact(f.z == v.z)
+    return j
+
+
 # ---------------------------------------------------------------------------------------------- slices
 def do_slice(ex, base, lo, hi, step, st):
     if isinstance(base, VBytes) or isinstance(base, VStr):
@@ -568,6 +623,11 @@ def _quant(ex, node, st, is_forall):
             view.store[nm] = VRef(bv)
             view.bound[nm] = VRef(bv)
             continue
+        elif isinstance(r, ast.Name) and r.id == "cells":
+            # every heap index, allocated or not (frame statements: two heaps agree on ALL cells from some index on)
+            view.store[nm] = VRef(bv)
+            view.bound[nm] = VRef(bv)
+            continue
         elif isinstance(r, ast.Name) and r.id == "ints":
             pass
         else:
@@ -853,6 +913,10 @@ SPEC_FORMS = {
     "url_path": _url_part("path"),
     "url_query": _url_part("query"),
     "url_fragment": _url_part("fragment"),
+    "jdepth": lambda ex, node, st: VInt(uf(ex, "JDEPTH", I, I)(ex.eval(node.args[0], st).z)),
+    "hexstr": lambda ex, node, st: VStr(uf(ex, "HEXLIFY", S, S)(ex.eval(node.args[0], st).z)),
+    "fromhex": lambda ex, node, st: VBytes(uf(ex, "FROMHEX", S, S)(ex.eval(node.args[0], st).z)),
+    "is_hexstr": lambda ex, node, st: VBool(uf(ex, "ISHEXSTR", S, B)(ex.eval(node.args[0], st).z)),
     "urlsplit_raises": lambda ex, node, st: VBool(uf(ex, "URLSPLIT_RAISES", S, B)(ex.eval(node.args[0], st).z)),
     "url_has_netloc": _url_part("hasnl"),
     "url_has_query": _url_part("hasq"),
